@@ -65,8 +65,8 @@ Definition raise_or (readable : bool) (spec : list finding) (o : option (list fi
   match o with Some obs => perm_eq spec obs | None => negb readable end.
 Definition semgrep_model_ok (c : reader_case) : bool := opt_grouped_eq (semgrep_reader (fst c)) (snd c).
 Definition semgrep_spec_ok (c : reader_case) : bool := raise_or (readable_semgrep (fst c)) (semgrep_spec (fst c)) (snd c).
-Definition codeql_model_ok (c : reader_case) : bool := opt_grouped_eq (codeql_reader (fst c)) (snd c).
-Definition codeql_spec_ok (c : reader_case) : bool := raise_or (readable_codeql (fst c)) (codeql_spec (fst c)) (snd c).
+Definition codeql_model_ok (c : reader_case) : bool := opt_grouped_eq (codeql_reader codeql_start_column (fst c)) (snd c).
+Definition codeql_spec_ok (c : reader_case) : bool := raise_or (readable_codeql codeql_start_column (fst c)) (codeql_spec codeql_start_column (fst c)) (snd c).
 Definition dd_model_ok (c : reader_case) : bool := opt_grouped_eq (dd_reader (fst c)) (snd c).
 Definition dd_spec_ok (c : reader_case) : bool := raise_or (readable_dd (fst c)) (dd_spec (fst c)) (snd c).
 
